@@ -90,6 +90,21 @@ def run(ctx):
             any(s for s in ai.stmts() if any(n == "imports" for pl in [s.rv.place] + [o.place for o in s.rv.ops] if pl is not None for n, o, v in pl.fields()))
         ctx.ob("R11.1", "all-imports", ok, "all_imports = implicit (used) interfaces + explicit imports" if ok else "all_imports misses the implicit or the explicit imports", site=ai.span)
 
+    # R11.1 (iv) both implementations look names up with the same discipline (the stand-alone check is semver-aware: NameMap)
+    for kind, res_call, what in (("imports", "IndexMap::get", "the world's import for a composition import"),
+                                 ("exports", "CompositionGraph::get_export", "the composition's export for a world export")):
+        b = db.fn(BIN_VT)
+        r = db.fn(RES_VT)
+        bin_semver = any((t.path or "").endswith("names::NameMap::get") for t in b.calls())
+        res_bodies = db.with_closures(r)
+        res_semver = any((t.path or "").endswith("names::NameMap::get") for g in res_bodies for t in g.calls())
+        res_exact = any((t.path or "").endswith(res_call) for g in res_bodies for t in g.calls())
+        ok = bin_semver == (res_semver and not res_exact) or (not bin_semver and not res_semver)
+        ctx.ob("R11.1", "lookup-discipline|" + kind, ok,
+               "both conformance checks look up %s with the same (semver-aware) name matching" % what if ok else
+               "the stand-alone check looks up %s through the semver-aware NameMap while the resolution-time check uses an exact `%s`: "
+               "for semver-compatible but unequal interface versions the two verdicts differ" % (what, res_call), site=r.span)
+
     # R11.2 diagnostics and verdict
     r = db.fn(RES_VT)
     vs = set()
